@@ -119,6 +119,26 @@ def project(cmd):
     return [cmd.name, tags, pos, tests, children]
 
 
+def guarded(fn, *args):
+    """call fn under the wall-clock watchdog -> ("ret", value) | ("raise", name, text) | ("hang",)"""
+    timer = threading.current_thread() is threading.main_thread()
+    if timer:
+        old = signal.signal(signal.SIGALRM, _alarm)
+        signal.setitimer(signal.ITIMER_REAL, WALL_LIMIT if _slow_events[0] < 3 else 0.3)
+    try:
+        try:
+            return ("ret", fn(*args))
+        finally:
+            if timer:
+                signal.setitimer(signal.ITIMER_REAL, 0)
+                signal.signal(signal.SIGALRM, old)
+    except (Hang, Slow):
+        _slow_events[0] += 1
+        return ("hang",)
+    except BaseException as e:  # noqa
+        return ("raise", type(e).__name__, str(e)[:60])
+
+
 def roundtrip(p, tree):
     """C04 on the implementation alone: serialise p.result, re-parse, compare, serialise again"""
     rt = {}
